@@ -10,7 +10,7 @@ TRUST = ("Trusted base: go/ssa, the gosx interpreter and its intrinsics/stubs (l
 # id -> (level text, level_note extra, design_ref)
 CLAIMS = {
  "C10": ("For every type (TypeID symbolic over all 12 ids, normalised unions, lists, objects, tuples to the stated depth) the solver shows Is is reflexive, "
-         "TypeSum is an upper bound / commutative / idempotent, TypeIntersection is contained in both operands, NonNullable removes exactly NULL, and for every "
+         "TypeSum is an upper bound / commutative / idempotent, TypeIntersection is contained in both operands, NonNullable removes exactly NULL (also from hand-written unions in any order), TypeSum leaves its operands untouched (append-grown unions), and for every "
          "value within the C09 bounds the value matches Value.Type(). Two known findings (object/tuple deep merge, unnamed object fields) are excluded by narrow predicates and re-exhibited on every run.",
          "Bounds: nesting depth <= 1 per operand (values: depth 2), <= 1-2 fields/elements, field names from {a,b,c}.", "§5 C10"),
  "C03": ("For every input table/changelog within the bounds the real SimpleGroupBy and CustomTriggerGroupBy (end-of-stream trigger) nodes, run symbolically with the real aggregate prototypes, return one row per distinct key (NULL is a key) holding count/sum/min/max, the DISTINCT variants and avg over the group's non-NULL inputs (NULL for none), and agree with each other.",
@@ -37,11 +37,11 @@ CLAIMS = {
          "Bounds: cells <= 2-3 bytes, JSON depth <= 1-2; 100-row preview scaled down by harness parameters.", "§5 C24"),
  "C25": ("For every row of values within the bounds the real JSON formatter (fastjson arena, marshal, escaping) produces a line that a reference JSON reader decodes back to the same values and structure, strings byte for byte; the CSV value formatter decodes back for scalars (NULL = empty), and several rows through one real CSVFormatter (encoding/csv quoting included) decode back through an RFC 4180 reader.",
          "Bounds: ints |x| small, strings <= 2-3 arbitrary bytes, nesting depth <= 1-2; finite float / time / duration rendering and the encoding/csv quoting layer outside; NaN/Inf rendering is a known finding.", "§5 C25"),
- "C26": ("Values, types, schemas, records, metadata messages and both variable contexts survive the real native->proto->native converters unchanged (Compare / Equals) for all symbolic inputs within the bounds; for every function overload, the predicate repopulated by RepopulatePhysicalExpressionFunctions evaluates like the original on all symbolic arguments.",
-         "Bounds: depth <= 1, <= 2 values/frames; the JSON transport is simulated by clearing the json:\"-\" fields; protobuf wire bytes, gRPC and a live plugin are outside.", "§5 C26"),
- "C28": ("The real ListInstalledPlugins, run over a symbolic plugin directory tree (os.ReadDir / LookupEnv bridged), reports every plugin under exactly the name after the prefix (names with dashes included) with versions in descending semver order.",
-         "Bounds: names <= 4-5 bytes over letters and '-', <= 2-3 versions from a catalogue; install-time selection and constraint resolution in cmd/root.go are outside (HTTP/JSON).", "§5 C28"),
- "C30": ("String literals and identifiers with arbitrary symbolic content survive print -> lex (one token, same bytes); a catalogue of 61 statements covering OctoSQL's extensions survives parse -> print -> parse with an identical tree (independent dump) and identical text.",
+ "C26": ("Values, types, schemas, records, metadata messages and both variable contexts survive the real native->proto->native converters unchanged (Compare / Equals) for all symbolic inputs within the bounds; for every function overload, the predicate repopulated by RepopulatePhysicalExpressionFunctions evaluates like the original on all symbolic arguments (also two overloads of one function in one predicate); the octosql side of the push-down exchange returns every predicate exactly once (subquery predicates never leave the process).",
+         "Bounds: depth <= 1, <= 2 values/frames, <= 2-3 predicates; the JSON transport is simulated by clearing the json:\"-\" fields; protobuf wire bytes, gRPC and a live plugin are outside.", "§5 C26"),
+ "C28": ("The real ListInstalledPlugins, run over a symbolic plugin directory tree (os.ReadDir / LookupEnv bridged), reports every plugin under exactly the name after the prefix (names with dashes included) with versions in descending semver order; the real Install (name/constraint parsing, GetManifest sort, selection loop; HTTP GET and JSON decode bridged) creates the directory of the highest version the constraint admits.",
+         "Bounds: names <= 4-5 bytes over letters and '-', <= 2-3 versions from a catalogue, 10 constraints; download/unarchive and constraint resolution in cmd/root.go are outside.", "§5 C28"),
+ "C30": ("String literals and identifiers with arbitrary symbolic content survive print -> lex (one token, same bytes); a catalogue of 61 statements covering OctoSQL's extensions, every stack of two unary operators and every combination of the optional SELECT clauses survive parse -> print -> parse with an identical tree (independent dump) and identical text.",
          "Bounds: literals <= 2-3 bytes, identifiers <= 3 bytes; statements outside the catalogue are outside.", "§5 C30"),
  "C01": ("For each query of a 16-shape single-source catalogue (WHERE, projections, DISTINCT, ORDER BY, LIMIT, subquery in FROM, WITH, COALESCE) and every table within the bounds, the real pipeline "
          "(SQL parser, logical plan, typechecker, optimizer, Materialize, execution nodes, top-level ORDER BY/LIMIT wiring) executed symbolically returns exactly the multiset (and order) a hand-written reference of SQL semantics defines.",
@@ -52,7 +52,7 @@ CLAIMS = {
  "C07": ("No Go runtime panic on any path, for: every function descriptor on arbitrary symbolic arguments of its declared types (all int64 values incl. 0, negatives, MinInt64), COALESCE with the real ObjectLayoutFixer, "
          "every execution expression kind, VariablesUsed/SplitByAnd over every expression kind, max_diff_watermark and tumble over sampled durations, and for ten query templates with an arbitrary byte fragment (1 byte quick, 2 bytes thorough) through lexer, parser, typechecker, optimizer and execution. Partial claim: other query strings / CLI options / files are outside.",
          "Bounds: strings <= 2 bytes, lists/tuples <= 1-2 elements, types depth <= 1-2; like, ~, ~*, parse_time excluded (regexp/time parsing).", "§5 C07"),
- "C12": ("reverse = runes reversed for every string within the bounds (incl. multibyte and invalid UTF-8), substr/position/len/replace/upper/lower equal small references on ASCII input. Partial: LIKE / ~ / ~* are outside.",
+ "C12": ("reverse = runes reversed for every string within the bounds (incl. multibyte and invalid UTF-8), substr/position/len/replace/upper/lower equal small references on ASCII input; LIKE is translated to exactly the specified regular language and ~ / ~* hand pattern and subject to the regexp library as given (also after the same pattern text went through LIKE). Partial: the regexp engine itself is outside.",
          "Bounds: strings <= 3 (quick) / 4 (thorough) bytes.", "§5 C12"),
  "C20": ("For N records with arbitrary symbolic times, symbolic max_diff and each catalogue resolution the real generator emits a watermark exactly on a new rounded maximum with value rounded - max_diff, "
          "and passes exactly the records after the current watermark with EventTime := time field.",
@@ -61,7 +61,7 @@ CLAIMS = {
          "poll: every round retracts the previous snapshot, emits the current one, then one watermark, under an arbitrary non-decreasing clock.",
          "Bounds: see evidence; alignment for 1ms/1min/1h windows is outside (solver unknown).", "§5 C21"),
  "C02": ("For every pair of input tables within the bounds (keys over all 2^64 Int values or NULL) and every receive order of the two inputs (each select with both inputs ready is a forked choice), "
-         "the consolidated output of the real StreamJoin / OuterJoin (left, right, full) / LookupJoin node equals the relational join (equality never matches NULL, unmatched outer rows padded once). "
+         "the consolidated output of the real StreamJoin / OuterJoin (left, right, full) / LookupJoin node equals the relational join (equality never matches NULL, unmatched outer rows padded once; inputs of equal and of different width). "
          "Bounded model checking of the real node code including its goroutines, channels and btrees.",
          "Bounds: 0..1 (quick) / 0..2 (thorough) rows per side, 1-2 key columns; node level (planner key extraction belongs to C04).", "§5 C02"),
  "C11": ("For every AND/OR/NOT tree within the bounds and every assignment of TRUE/FALSE/NULL to its leaves the real evaluators return the Kleene value (solver-checked per path).",
@@ -70,8 +70,8 @@ CLAIMS = {
          "whenever the real StreamJoin / OuterJoin emits watermark W its consolidated output equals the join of the input records with event time <= W, emitted watermarks never decrease, and at end of stream "
          "the output equals the join of the complete inputs. Schedule-dependent counterexamples are replayed natively through the `verif` hook that fixes the receive order.",
          "Bounds: 2 (quick) / 3 (thorough) messages per input, keys over all Int values or NULL, event times 1..TCH s after the input's watermark.", "§5 C19"),
- "C08": ("For every function name and overload accepted by the real typechecker over a universe of argument types (each optionally nullable), and for And/Or/Coalesce/TypeCast/Tuple/field access, the value the real Materialize + Evaluate produce on arbitrary conforming symbolic arguments matches the static type the typechecker reported (independent `matches`).",
-         "Bounds: argument types of depth <= 1 (TS=1 quick / 2 thorough), strings <= 2 bytes, containers <= 1-2 elements; like/~/~*/now/parse_time typechecked but not evaluated; aggregate output types and whole queries outside.", "§5 C08"),
+ "C08": ("For every function name and overload accepted by the real typechecker over a universe of argument types (each optionally nullable), and for And/Or/Coalesce/TypeCast/Tuple/field access, the value the real Materialize + Evaluate produce on arbitrary conforming symbolic arguments matches the static type the typechecker reported (independent `matches`); at plan level every value returned by 6 aggregate / grouping / COALESCE queries over tables with NULLs matches its column type.",
+         "Bounds: argument types of depth <= 1 (TS=1 quick / 2 thorough), strings <= 2 bytes, containers <= 1-2 elements; like/~/~*/now/parse_time typechecked but not evaluated; queries outside the 6-query catalogue outside.", "§5 C08"),
  "C13": ("For every overload of the arithmetic operators on Int/Float/Duration/Time/String, abs/ceil/floor/sqrt (exact IEEE via the FP theory; log/pow plumbing only), int()/float()/string(), time_from_unix/time_to_unix, IN/NOT IN, list indexing and COALESCE, the real closures return what small definitional references state, for all 64-bit argument values within the bounds (failed parses -> NULL, time_to_unix(time_from_unix(x)) = x, COALESCE = first non-NULL, re-laid-out by field name for objects of different layout).",
          "Bounds: strings <= 3 bytes, 7 object layouts for COALESCE, lists <= 2-3 elements, time_from_unix(Float) for |x| < 4; inputs that raise query errors (division by zero, negative counts/indices) assumed away; parse_time, now, string() rendering outside.", "§5 C13"),
  "C09": ("For every pair/triple of octosql values within the bounds (all 2^64 bit patterns per Int/Float/Duration leaf, every byte value per string byte, "
